@@ -8,7 +8,7 @@ the same candles, readings and helper readings.
 from __future__ import annotations
 
 from .. import planlib, simclock, world
-from ..catalogue import build, mk_candles, sample_spec, spec_label
+from ..catalogue import encode, build, mk_candles, sample_spec, spec_label
 from ..subjects import Neighbours, sample_neighbours
 from ..core import Discard, LibError, Violation, filled_size, run_property
 from ..relational import any_reading, batch_twin, compare_candles
@@ -64,6 +64,8 @@ def plan(seed, subbatch):
     for i, op in enumerate(ops):
         if op["op"] == "append" and len(op["candles"]) == 1 and cfg.random() < 0.3:
             op["bare"] = True
+        elif op["op"] == "append" and len(op["candles"]) > 1 and sub_rng(seed, "forms-%d" % i).random() < 0.15:
+            op["enc"] = sub_rng(seed, "forms-k-%d" % i).choice(("dicts", "lists", "lists_tsfirst", "lists_mixed"))
         out.append(op)
         if (i + 1) % every == 0:
             out.append({"op": "check"})
@@ -135,8 +137,8 @@ def _execute(trace):
                     n_appends += 1 if rows else 0
                     delivered.extend(rows)
                     neigh.feed(rows)
-                    payload = mk_candles(rows)
-                    if len(rows) == 1 and op.get("bare"):
+                    payload = mk_candles(rows) if not op.get("enc") else encode(rows, op["enc"])
+                    if len(rows) == 1 and op.get("bare") and not op.get("enc"):
                         payload = payload[0]   # a single candle handed over as a bare Candle object
                     run.call(filled_size(delivered, tfs) * 2, subject.append, payload)
                     calculated = True
